@@ -29,7 +29,8 @@ Fixpoint ch_set (c : changes) (k v : N) : changes :=
 (* RenumVisitor::line : numeric literal -> `n as u16` (saturating: negative is 0) *)
 Definition renum_operand (ch : changes) (e : expr) : list (col * N) :=
   let look (c : col) (too_big : bool) (n : Z) :=
-    if too_big then [] else
+    (* an omitted operand has an empty column and nothing to rewrite; the -1 sentinel is not a line *)
+    if too_big || (fst c =? snd c) || (n <? 0)%Z then [] else
     match ch_get ch (Z.to_N (Z.max 0%Z n)) with
     | Some nn => [(c, nn)]
     | None => []
@@ -48,24 +49,16 @@ Fixpoint renum_visit (ch : changes) (s : stmt) : list (col * N) :=
   match s with
   | SGoto _ e | SGosub _ e | SRestore _ e | SRun _ e => renum_operand ch e
   | SDelete _ a b | SList _ a b => renum_operand ch a ++ renum_operand ch b
-  | SOnGoto _ _ l => flat_map (renum_operand ch) l
+  | SOnGoto _ _ l | SOnGosub _ _ l => flat_map (renum_operand ch) l
   | SIf _ _ th el => flat_map (renum_visit ch) th ++ flat_map (renum_visit ch) el
   | _ => []
   end.
 
-(* String::replace_range on byte offsets *)
-Definition is_cont_byte (b : N) : bool := (128 <=? b) && (b <? 192).
-Definition is_char_boundary (bs : list N) (i : N) : bool :=
-  if i =? lenN bs then true
-  else match nthN bs i with
-       | Some b => negb (is_cont_byte b)
-       | None => false
-       end.
-Definition replace_range (bs : list N) (c : col) (ins : list N) : res (list N) :=
+(* the new number replaces the characters [a, b) of the listed text (columns count characters) *)
+Definition replace_chars (s : str) (c : col) (ins : str) : res str :=
   let '(a, b) := c in
-  if (b <? a) || (lenN bs <? b) then Panic
-  else if negb (is_char_boundary bs a && is_char_boundary bs b) then Panic
-  else Ok (firstnN a bs ++ ins ++ skipnN b bs).
+  if b <? a then Panic
+  else Ok (firstnN a s ++ ins ++ skipnN b s).
 
 Definition line_renum (ch : changes) (l : line) : res line :=
   let number := match fst l with
@@ -78,10 +71,9 @@ Definition line_renum (ch : changes) (l : line) : res line :=
       match reps with
       | [] => Ok (number, snd l)
       | _ =>
-          let bs0 := utf8_enc (tokens_str (snd l)) in
-          do bs <- fold_left (fun acc r => do bs <- acc; replace_range bs (fst r) (dec_of_N (snd r)))
-                             (rev reps) (Ok bs0);
-          do lx <- lex (utf8_dec bs);
+          do txt <- fold_left (fun acc r => do t <- acc; replace_chars t (fst r) (dec_of_N (snd r)))
+                              (rev reps) (Ok (tokens_str (snd l)));
+          do lx <- lex txt;
           Ok (number, snd lx)
       end
   | Err _ => Ok l
@@ -149,6 +141,7 @@ Fixpoint renum_changes (ls : list (N * list token)) (new_start old_start step : 
   end.
 
 Definition listing_renum (l : listing) (new_start old_start step : N) : res listing :=
+  if step =? 0 then err E_IllegalFunctionCall else
   do ch <- renum_changes (ls_lines l) new_start old_start step 65530 new_start [];
   do ls <- fold_left (fun acc e =>
                         do ls <- acc;
